@@ -144,7 +144,26 @@ func c04Vers[V univers.Version[V], VR univers.VersionRange[V]](e univers.Ecosyst
 	got, err := vers.Contains(text, probe)
 	vv.Assert(err == nil, "C04: well-formed VERS range with valid versions is rejected")
 	vv.Assume(err == nil)
-	vv.Assert(got == versSem(ol, c), "C04: vers.Contains differs from the union-of-intervals denotation")
+	want := versSem(ol, c)
+	if e.Name() == "pypi" && pepIsPre(probe) {
+		// PEP 440 default: a pre-/dev-release probe is excluded unless a constraint names one
+		named := false
+		for _, s := range vs {
+			if pepIsPre(s) {
+				named = true
+			}
+		}
+		if !named {
+			want = false
+		}
+	}
+	vv.Assert(got == want, "C04: vers.Contains differs from the union-of-intervals denotation")
+}
+
+// pepIsPre: the version (reference parse) has a pre-release or dev segment.
+func pepIsPre(s string) bool {
+	v, ok := pepParse(s)
+	return ok && (v.hasPre || v.hasDev)
 }
 
 // c04BadGrouping: the bound comparators of the range (ignoring = and !=) are not one of the shapes
